@@ -312,7 +312,7 @@ func c03Harness(cfg *Cfg) func(x *mc.Exec) {
 		firstStream = sink.Buf
 	}
 	corpus := shortCorpus(g)
-	pol2 := []env.ReadPolicy{env.PolicyAll, env.Policy1}
+	pol2 := []env.ReadPolicy{env.PolicyAll, env.Policy1, env.PolicyZero}
 	// run reads the input with a fresh Reader, or with a Reader that already lived through another stream.
 	run := func(stream []byte, pol env.ReadPolicy, reuse int) readOutcome {
 		if reuse == 0 {
@@ -509,7 +509,7 @@ func c03Harness(cfg *Cfg) func(x *mc.Exec) {
 				ns = namedStream{fmt.Sprintf("distance-too-far code=%s position=%d padded=%d match(%d,%d) with %d bytes produced", cname, pos, pad, m.Len, m.Dist, produced), s}
 			}
 			reuse := x.Choose(3, "reader")
-			pol := pol2[x.Choose(2, "read-policy")]
+			pol := pol2[x.Choose(len(pol2), "read-policy")]
 			x.NonTrivial()
 			o := run(ns.stream, pol, reuse)
 			site := "part=fault " + strings.SplitN(ns.name, " ", 2)[0] + " " + reuseNames[reuse]
